@@ -298,6 +298,9 @@ func OpenInitialWithPN(b []byte, odcid []byte, fromClient bool, expected uint64)
 	return r
 }
 
+// ParseFrames reads a sequence of Initial-level frames (independent of the code under test).
+func ParseFrames(pt []byte) ([]Frame, error) { return parseInitialFrames(pt) }
+
 func parseInitialFrames(pt []byte) ([]Frame, error) {
 	var fs []Frame
 	p := 0
